@@ -115,16 +115,24 @@ def s1(ctx, rep):
         nid = [x.id for x in cfg.nodes if any(y is call for y in cfg.node_walk(x.id))]
         ok = False
         why = "the call is evaluated unconditionally"
+        # the variable that receives the fallback is the one that was tested (`if s is None: s = generate_random_seed()`)
+        st = getattr(call, "_parent", None)
+        while st is not None and not isinstance(st, ast.stmt):
+            st = getattr(st, "_parent", None)
+        tgts = [U(t) for t in st.targets] if isinstance(st, ast.Assign) else []
+
+        def is_seed(v):
+            return v in tgts or "seed" in v
         if nid:
             at = ctx.facts(top).at(nid[0])
-            ok = any(a[0] == "is" and a[2] == "None" and a[3] is True and "seed" in a[1] for a in at)
+            ok = any(a[0] == "is" and a[2] == "None" and a[3] is True and is_seed(a[1]) for a in at)
             # inside a short-circuit / conditional expression the statement-level facts do not see the guard
             par = getattr(call, "_parent", None)
             if isinstance(par, (ast.BoolOp, ast.IfExp)):
                 ok = False
                 if isinstance(par, ast.IfExp):
                     at2 = atoms_of(par.test, par.orelse is call)
-                    ok = any(a[0] == "is" and a[2] == "None" and a[3] is True and "seed" in a[1] for a in at2)
+                    ok = any(a[0] == "is" and a[2] == "None" and a[3] is True and is_seed(a[1]) for a in at2)
                 why = f"the fallback is selected by `{U(par)[:70]}`, a truthiness test: the legal seed 0 is treated as 'no seed'"
         rep.put(ok, "S1", "guarded_by", f"{top.short}: seed fallback generate_random_seed() only when the seed is None", top, call,
                 "guarded by `<seed> is None`", why + "; the master seed then comes from the global generator although a seed was given")
@@ -133,6 +141,21 @@ def s1(ctx, rep):
 
 
 SAMPLERS = {"sample_random_configuration", "random_config", "random_configs", "sample"}
+
+
+def _under_isinstance(call, clsname):
+    """the receiver of `call` is tested with isinstance(<receiver>, clsname) by an enclosing `if` whose body holds the call"""
+    if not isinstance(call.func, ast.Attribute):
+        return False
+    recv = U(call.func.value)
+    node, par = call, getattr(call, "_parent", None)
+    while par is not None and not isinstance(par, (ast.FunctionDef, ast.AsyncFunctionDef)):
+        if isinstance(par, ast.If) and any(node is s for s in par.body):
+            for y in ast.walk(par.test):
+                if isinstance(y, ast.Call) and fn_name(y) == "isinstance" and len(y.args) == 2 and U(y.args[0]) == recv and U(y.args[1]) == clsname:
+                    return True
+        node, par = par, getattr(par, "_parent", None)
+    return False
 
 
 def s2(ctx, rep):
@@ -149,7 +172,7 @@ def s2(ctx, rep):
                     # Domain.sample(...) only
                     t = ctx.R.infer(m, x.func.value) if isinstance(x.func, ast.Attribute) else None
                     dom = P.cls("Domain")
-                    if not (t is not None and t.cls is not None and dom in P.mro(t.cls)) and not U(x.func.value).startswith("hp_range"):
+                    if not (t is not None and t.cls is not None and dom in P.mro(t.cls)) and not _under_isinstance(x, "Domain"):
                         continue
                 rs = kwarg(x, "random_state")
                 if rs is None and name in ("random_config", "random_configs") and x.args:
